@@ -25,11 +25,25 @@ type c17result struct {
 	Completed  []string `json:"completed"`
 }
 
-func c17Binary() string { return "/verif/.build/c17.test" }
+func c17Binary() string { return VerifDir() + "/.build/c17.test" }
 
 func c17Exec(args []string, out string, limit time.Duration) (*c17result, error) {
 	cmd := exec.Command(c17Binary(), append([]string{"-test.run", "TestC17", "-test.timeout", fmt.Sprintf("%ds", int(limit.Seconds())+60), "-out", out}, args...)...)
+	// The child enforces its own deadline (-test.timeout); tell the worker's
+	// watchdog that waiting for it is not a hang.
+	stop := make(chan struct{})
+	go func() {
+		for {
+			select {
+			case <-stop:
+				return
+			case <-time.After(2 * time.Second):
+				Progress.Add(1)
+			}
+		}
+	}()
 	b, err := cmd.CombinedOutput()
+	close(stop)
 	if err != nil {
 		tail := string(b)
 		if len(tail) > 3000 {
@@ -53,8 +67,8 @@ func init() {
 		ID:    "C17",
 		Level: "exploration",
 		Rule: "the real pubsub.PubSub inside testing/synctest bubbles (virtual clock; the batch publisher goroutine, its ticker and the publish timeouts settle deterministically): " +
-			"EVERY interleaving, at call granularity, of S subscribers' [Subscribe, Unsubscribe] programs, P publishers' [Publish(DocChanged)] programs and up to E clock events (advance by the batch window / by the publish timeout) " +
-			"for (S,P,E) in {(1,1,2),(2,1,2),(1,2,2),(2,2,1)} (thorough up to 3 subscribers / 3 publishers / 3 clock events), times every subset of stalled consumers (never read until the end; self-prune threshold lowered to 2 failures); " +
+			"EVERY interleaving, at call granularity, of S subscribers' [Subscribe, Unsubscribe] programs, P publishers' [Publish(DocChanged) x m] programs and up to E clock events (advance by the batch window / by the publish timeout) " +
+			"for (S,P,m,E) in {(1,1,1,2),(1,1,3,2),(2,1,1,2),(2,1,2,2),(1,2,1,2),(1,2,2,2),(2,2,1,1),(2,2,2,1)}, m = publishes per publisher (the batch publisher keeps at most two pending events per actor, so 3 by one actor and 2+1 by two reach its de-duplication; thorough up to 3 subscribers / 3 publishers / 3 publishes / 3 clock events), times every subset of stalled consumers (never read until the end; self-prune threshold lowered to 2 failures); " +
 			"oracle: a subscriber whose Subscribe returned before a Publish was called and that stays subscribed for window + k*timeout of virtual time afterwards reads a notification of that actor (stalled consumer: any notification read after the publish) or sees its channel closed; " +
 			"nothing published after its Unsubscribe is read; ClientIDs is empty once all have unsubscribed and no goroutine stays blocked when the bubble ends (synctest's own check); no panic; non-trivial = sequences with >= 3 programs",
 		Assume: []string{"interleaving is at the granularity of the three API calls; preemption INSIDE Subscribe/Unsubscribe/Publish (cmap shard locks) is not explored here",
